@@ -23,6 +23,10 @@ def build_model(law, variant, ns=3):
     from bioscrape.types import Model
     sp = ["S%d" % (i + 1) for i in range(ns)] + ["P"]
     m = Model(species=sp, initialize_model=False)
+    if variant == 2:
+        # the law is the SECOND reaction of the model; the first one (Zb -> 0 at Zb = 0) cannot fire, which the safe interface
+        # notices: the rate of a reaction does not depend on the reactions declared before it
+        m.create_reaction(["Zb"], [], "massaction", {"k": 2.5})
     named = variant == 1
     if law["type"] == "massaction":
         re_ = ["S%d" % i for i in (law.get("written") or law["re"])]
@@ -41,6 +45,8 @@ def build_model(law, variant, ns=3):
             for nme, key in (("kk", "k"), ("KK", "K"), ("nn", "n")):
                 m.create_parameter(nme, f(law[key]))
     m.set_species({s: 1 for s in sp})
+    if variant == 2:
+        m.set_species({"Zb": 0})
     m.py_initialize()
     return m
 
@@ -54,10 +60,12 @@ def impl_eval(job):
     sweep = job.get("sweep") or [{"law": job["law"], "pts": job["pts"]}]
     law = sweep[0]["law"]
     m = build_model(law, variant, ns=len(sweep[0]["pts"][0]["x"]))
-    prop = m.get_propensities()[0]
+    ri = 1 if variant == 2 else 0          # index of the law's reaction
+    prop = m.get_propensities()[ri]
     plain = ModelCSimInterface(m)
     safe = SafeModelCSimInterface(m)
-    upd = m.py_get_update_array()[:, 0]
+    upd = m.py_get_update_array()[:, ri]
+    nsp_model = m.py_get_update_array().shape[0]
     bad = []
     n_eval = 0
     for n_ent, ent in enumerate(sweep):
@@ -66,7 +74,7 @@ def impl_eval(job):
           m.set_params({"kk": f(law["k"])} if law["type"] == "massaction" else {"kk": f(law["k"]), "KK": f(law["K"]), "nn": f(law["n"])})
       params = m.get_parameter_values().copy()
       for pt in ent["pts"]:
-          x = np.array([f(v) for v in pt["x"]] + [1.0])
+          x = np.array([f(v) for v in pt["x"]] + [1.0] + [0.0] * (nsp_model - len(pt["x"]) - 1))
           V = f(pt["V"])
           exp = {k: f(pt[k]) for k in MODES}
           supplied = all(x[i] >= -upd[i] for i in range(len(x)) if upd[i] < 0)
@@ -75,8 +83,8 @@ def impl_eval(job):
                        "vol": prop.py_get_volume_propensity(x.copy(), params, V),
                        "sto": prop.py_verif_get_stochastic_propensity(x.copy(), params),
                        "stovol": prop.py_verif_get_stochastic_volume_propensity(x.copy(), params, V)},
-              "plain": {k: float(plain.py_verif_propensities(k, x.copy(), V)[0]) for k in MODES},
-              "safe": {k: float(safe.py_verif_propensities(k, x.copy(), V)[0]) for k in MODES},
+              "plain": {k: float(plain.py_verif_propensities(k, x.copy(), V)[ri]) for k in MODES},
+              "safe": {k: float(safe.py_verif_propensities(k, x.copy(), V)[ri]) for k in MODES},
           }
           for path, vals in got.items():
               for mode, val in vals.items():
@@ -158,6 +166,9 @@ def run(tier):
         for variant in (0, 1):
             for ch in pool.chunks(pts, 400):
                 jobs.append({"law": law, "variant": variant, "pts": ch})
+        # variant 2: the law as second reaction after one that cannot fire (every second point in the quick tier)
+        for ch in pool.chunks(pts[:: 2 if quick_tier else 1], 400):
+            jobs.append({"law": law, "variant": 2, "pts": ch})
         # (parameter sweeps on one object are added below)
         # the same law with its reactants written in other orders (RateProbe.OrderInvariant): reversed and with the
         # copies of a repeated reactant apart (A+B+A); every order of the multiset in the thorough tier
